@@ -373,6 +373,7 @@ func (in *Interp) witness(id string, model map[string]uint64) *Witness {
 		bits := model[inp.term.name]
 		w.Inputs[inp.Name] = WitnessInput{Sort: inp.Sort.String(), Bits: fmt.Sprintf("%#x", bits), Pretty: describeBits(inp.Sort, bits)}
 	}
+	w.Choices = append(w.Choices, in.fixedLog...)
 	for _, d := range in.trace {
 		w.Decisions = append(w.Decisions, d.k)
 		if d.name != "" && !strings.HasPrefix(d.name, "maporder") {
